@@ -38,6 +38,9 @@ pub enum Case {
     /// the base case's labels / truth handed over in every target container form (views, datasets,
     /// dataset views, CountedTargets, with_labels, one_vs_all, map_targets, into_single_target)
     Containers { base: Box<Case> },
+    /// the base case with every value v replaced by offset + step * v (prediction and truth alike; all
+    /// points; every column): translation-invariant scores must not move
+    Shifted { base: Box<Case>, offset: f64, step: f64 },
 }
 
 #[derive(Default, Debug)]
